@@ -277,6 +277,23 @@ def getLODs (cal : Cal) (utcOffset : Int) (ts : TS) (offset : Int) : List (Int Ã
   | t0 :: _ =>
     lodRanges cal ts.lods (if offset != 0 then startOfLOD cal (t0 - offset) (step0Of ts.lods) utcOffset else t0)
 
+/-- LOD.IndexOf(timestamp) for one returned range (FromSec, ToSec, StepSec): the index of the grid point `timestamp` inside the
+    range, `none` for the "out of range" error. Monthly: `for t := FromSec; t < timestamp; n++ { t = <one month forward> }`,
+    which is the loop of `endOfLOD` (le = false), then `t == timestamp`; the code after fixes/C22-indexof-month.diff steps with
+    StepForward (= `cal.next`). Fixed steps: `d % step == 0 â†’ d / step` with Go's truncating operators. -/
+def indexOf (cal : Cal) (r : Int Ã— Int Ã— Int) (timestamp : Int) : Option Int :=
+  if isMonth r.2.2 then
+    (if (endOfLOD cal r.1 r.2.2 timestamp false).1 == timestamp then some ((endOfLOD cal r.1 r.2.2 timestamp false).2 : Int)
+     else none)
+  else
+    (if Int.tmod (timestamp - r.1) r.2.2 == 0 then some (Int.tdiv (timestamp - r.1) r.2.2) else none)
+
+/-- seeded variant C22-r3-1 (NOT the code): GetLODs without re-aligning the shifted start, `start := Time[0] - offset` -/
+def getLODsNoRealign (cal : Cal) (ts : TS) (offset : Int) : List (Int Ã— Int Ã— Int) :=
+  match ts.time with
+  | [] => []
+  | t0 :: _ => lodRanges cal ts.lods (t0 - offset)
+
 /-! ### api/lod.go calcUTCOffset â€” the zone's offset at the Unix epoch is data -/
 
 /-- 1970-01-01 is a Thursday (time.Weekday 4) -/
